@@ -14,11 +14,7 @@ def run(rep, tier, seed):
     if not q:
         # (an exhaustive W=3 two-fault run did not finish within an hour: it is not part of this tier)
         runs += [('W3', dict(W=3, L=1, turns=5, env_per_turn=2, max_conns=4, actions=acts, track_c01=True, checks=ck)),
-                 ('W2-two-faults', dict(W=2, L=1, turns=5, env_per_turn=3, max_conns=3, max_dead=2, max_replacements=0, actions=('connect', 'finish', 'die'), track_c01=True, checks=ck))]
-        # two faults PLUS replacements are not explored: with both workers dead and a replacement still queued behind a listener event of the same
-        # batch, the accept loop legitimately drops the connection (no handle is left at that moment), but the oracle `accepted_connection_is_never_
-        # silently_discarded` reads the handle list at the end of the batch - it would raise a false alarm there (found by the first thorough run of this
-        # configuration; DESIGN.md section 13)
+                 ('W2-two-faults', dict(W=2, L=1, turns=5, env_per_turn=3, max_conns=3, max_dead=2, max_replacements=2, actions=acts, track_c01=True, checks=ck))]
     else:
         # two simultaneous faults: regression schedule family (quick), exhaustive in thorough
         runs += [('W2-two-faults-limit1', dict(W=2, L=1, limit=1, turns=5, env_per_turn=3, max_conns=3, max_dead=2, max_replacements=0, actions=('connect', 'finish', 'die'), track_c01=True, checks=ck))]
